@@ -2,7 +2,7 @@
 From Coq Require Import QArith Qround ZArith List.
 Import ListNotations.
 Require Import Plinio.Base.Qx Plinio.Base.Round.
-Open Scope Q_scope.
+Local Open Scope Q_scope.
 
 Definition pow2 (p : nat) : Z := (2 ^ Z.of_nat p)%Z.
 Definition qpow2 (p : nat) : Q := inject_Z (pow2 p).
